@@ -268,6 +268,57 @@ func c07main(c *Ctx) {
 			}
 			return
 		}
+		// second round: after the logger has logged once, some logger of the chain (often an ancestor two or
+		// more levels up) gets further attributes; the next record must show them (no per-logger caching of
+		// what was inherited at the first record)
+		if r.P(40) {
+			d2 := r.Intn(depth)
+			src := fmt.Sprintf("late%d", depth-1-d2)
+			late := genSrcList(r, src, r.Range(1, 3), keyspace, false)
+			for _, kv := range late {
+				chain[d2].Set(kv.key, kv.src)
+			}
+			own[d2] = append(own[d2], late...)
+			var all2 []srcKV
+			all2 = append(all2, ctxList...)
+			if inherit {
+				for d := 0; d < depth-1; d++ {
+					all2 = append(all2, own[d]...)
+				}
+			}
+			all2 = append(all2, own[depth-1]...)
+			all2 = append(all2, call...)
+			var want2 []flatKV
+			flattenRef("", mergeRef(all2), &want2)
+			evs2 := capture(log, func() {
+				if nilCtx {
+					lg.InfoContext(nil, "probe", args...) //nolint:staticcheck
+				} else {
+					lg.InfoContext(ctx, "probe", args...)
+				}
+			})
+			desc["late_attrs_on_logger"] = d2
+			desc["late_attrs"] = descList(late)
+			c.R.Add("second_round_records", 1)
+			if d2 < depth-2 && inherit {
+				c.R.Add("second_round_after_change_two_or_more_levels_up", 1)
+			}
+			if len(evs2) != 1 {
+				c.R.Violation(idx, "one-write", "C07/one-write", fmt.Sprintf("expected one Write, saw %s", fmtEvents(evs2)), desc)
+				return
+			}
+			d2rec, err := decodeRecord(f, evs2[0].Data, true, false)
+			if err != nil {
+				c.R.Violation(idx, "decode", "C07/decode/"+f.String(), err.Error()+"\npayload: "+q(clip(string(evs2[0].Data), 1200)), desc)
+				return
+			}
+			if vs := c07compare(d2rec.Attrs, want2, all2); len(vs) > 0 {
+				for _, v := range vs {
+					c.R.Violation(idx, v.clause, "C07/"+v.clause+"/"+v.feature+"/after-late-attrs", v.detail+"\npayload: "+q(clip(string(evs2[0].Data), 1200)), desc)
+				}
+				return
+			}
+		}
 		if len(want) > 0 {
 			c.R.NonTrivial(fmt.Sprint(f, inherit, depth), fmt.Sprint(descList(all)))
 		}
